@@ -57,6 +57,8 @@ def features(case):
         rep = d.get("repr")
         if rep:
             f += [x for x in (f"data_{rep['dtype']}", f"layout_{rep['layout']}", "integer_axis" if rep.get("axis_int") and all(float(g).is_integer() for g in d["global_axis"]) else None) if x and x not in f]
+    if case.get("rate_label_offset"):
+        f.append("parameter_group_of_11+")
     if case.get("model_axis_order"):
         f.append("model_axis_" + case["model_axis_order"])
     if case.get("global_axis_order"):
